@@ -31,6 +31,9 @@ type ScalarCase struct {
 	TZ string `json:"tz,omitempty"`
 	Others  [][2]string       `json:"others,omitempty"` // url: other parameters (name, value); map: other entries
 	Pos     int               `json:"pos,omitempty"`    // url: position of our parameter among the others
+	// Again: url: values of further occurrences of OUR parameter, placed right before ours
+	// (?k=&k=abc): every occurrence is judged on its own
+	Again []string `json:"again,omitempty"`
 	// listmap: one flag per list element, true = that element lacks our key
 	// (nil = the list holds the same map twice, present or missing per Missing)
 	ListMissing []bool `json:"list_missing,omitempty"`
@@ -270,12 +273,16 @@ func (c *ScalarCase) prepare() func() error {
 			params = append(params, o[0]+"="+o[1])
 		}
 		if !c.Missing {
-			ours := scalarKey + "=" + v.String()
+			var ours []string
+			for _, a := range c.Again {
+				ours = append(ours, scalarKey+"="+a)
+			}
+			ours = append(ours, scalarKey+"="+v.String())
 			pos := c.Pos
 			if pos > len(params) {
 				pos = len(params)
 			}
-			params = append(params[:pos], append([]string{ours}, params[pos:]...)...)
+			params = append(params[:pos], append(ours, params[pos:]...)...)
 		}
 		u := "http://test.com/a/b"
 		if len(params) > 0 {
@@ -355,6 +362,24 @@ func (c *ScalarCase) expect() *model.Result {
 				e.Path = strings.Replace(e.Path, "[0]map[", "["+strconv.Itoa(i)+"]map[", 1)
 				out.Seq = append(out.Seq, model.Item{C: &e})
 			}
+			out.Violations += r.Violations
+			out.Satisfied += r.Satisfied
+			out.NonFirstViol = out.NonFirstViol || r.NonFirstViol
+			out.Excluded = append(out.Excluded, r.Excluded...)
+		}
+		return out
+	}
+	if len(c.Again) > 0 && (c.Carrier == "url" || c.Carrier == "urlenc") && !c.Missing {
+		// every occurrence of the parameter is judged on its own, in the order of the query
+		out := &model.Result{GroupObjs: map[string]int{}}
+		for i := 0; i <= len(c.Again); i++ {
+			cc := *c
+			cc.Again = nil
+			if i < len(c.Again) {
+				cc.T, cc.Val = desc.Scalar("string"), desc.Str(c.Again[i])
+			}
+			r := cc.expect()
+			out.Seq = append(out.Seq, r.Seq...)
 			out.Violations += r.Violations
 			out.Satisfied += r.Satisfied
 			out.NonFirstViol = out.NonFirstViol || r.NonFirstViol
